@@ -147,6 +147,15 @@ func newLibGen(r *Rng, prop string, big bool) *LibGen {
 	g := &LibGen{r: r, prop: prop}
 	g.lay = genLayout(r, big)
 	g.now = 1600000000 + r.Intn(100000000)
+	switch r.Intn(10) {
+	case 0:
+		// after 2038: timestamps with the top bit set (a Timestamp is a uint32; differences of
+		// two timestamps are int32 and the code must not depend on their sign beyond a retention)
+		g.now = 2147483648 + 1000000 + r.Intn(2000000000)
+	case 1:
+		// a history that crosses 2^31
+		g.now = 2147483648 - g.lay.MaxRet()/2 + r.Intn(g.lay.MaxRet()+1)
+	}
 	if r.Chance(1, 4) {
 		// align the clock to the coarsest step now and then
 		s := g.lay.Steps[g.lay.K()-1]
@@ -330,6 +339,12 @@ func (g *LibGen) History(nSteps int) []Op {
 		case c < 18:
 			ops = append(ops, Op{"sync", sDisk}, Op{"open", true})
 		case c < 19:
+			if g.r.Chance(1, 3) {
+				// Create on a path that exists is refused and leaves the file alone
+				ops = append(ops, Op{"sync", sDisk}, Op{"drop", false}, Op{g.createLine(), true},
+					Op{fmt.Sprintf("disk %d", g.lay.HdrSize()), true}, Op{"open", true})
+				break
+			}
 			// abandon the handle without sync, then reopen: the last synced state is back
 			ops = append(ops, Op{"drop", false}, Op{"open", true})
 		default:
